@@ -552,6 +552,10 @@ outerNew:
 			if reposition {
 				if cursor.Hyperlink != "" {
 					_, _ = vx.tw.WriteString(tparm(osc8, "", ""))
+					// the link is closed now: the next cell has to
+					// open it again, even if it is the same link
+					cursor.Hyperlink = ""
+					cursor.HyperlinkParams = ""
 				}
 				_, _ = vx.tw.WriteString(tparm(cup, row+1, col+1))
 				reposition = false
